@@ -339,7 +339,9 @@ class ConventionalResponseHandler(MessageHandler, ResponseHandler):
             raise transport_errors.SmartProtocolError(
                 f"Unknown response status: {byte!r}"
             )
-        if self._body_started:
+        if self._body_started or self.args is not None:
+            # A status byte after the args is the status of the body stream
+            # (the stream may fail before its first chunk is sent).
             if self._body_stream_status is not None:
                 raise transport_errors.SmartProtocolError(
                     f"Unexpected byte part received: {byte!r}"
@@ -374,7 +376,7 @@ class ConventionalResponseHandler(MessageHandler, ResponseHandler):
             raise transport_errors.SmartProtocolError(
                 f"Args structure is not a sequence: {structure!r}"
             )
-        if not self._body_started:
+        if not self._body_started and self._body_stream_status is None:
             if self.args is not None:
                 raise transport_errors.SmartProtocolError(
                     f"Unexpected structure received: {structure!r} (already got {self.args!r})"
